@@ -334,4 +334,71 @@ theorem openArtifact_groups {a a' : Art} (h : openArtifact a = some a') {g : Key
     · cases h; exact h1 g hg
     · cases h
 
+/-! ### nothing in the HDF layer or in `Keys` reads the cache -/
+
+theorem isLeaf_setCache (a : Art) (c : List (Key × Node)) (p : Key) : isLeaf { a with cache := c } p = isLeaf a p := rfl
+theorem occupied_setCache (a : Art) (c : List (Key × Node)) (p : Key) : occupied { a with cache := c } p = occupied a p := rfl
+theorem isGroup_setCache (a : Art) (c : List (Key × Node)) (p : Key) : isGroup { a with cache := c } p = isGroup a p := rfl
+
+theorem ensureParent_setCache (a : Art) (c : List (Key × Node)) (p : Key) :
+    ensureParent { a with cache := c } p = { ensureParent a p with cache := c } := by
+  unfold ensureParent
+  rw [isGroup_setCache]
+  split <;> rfl
+
+theorem hdfWriteJson_setCache (a : Art) (c : List (Key × Node)) (p : Key) (n : Node) :
+    hdfWriteJson { a with cache := c } p n = (hdfWriteJson a p n).map (fun x => { x with cache := c }) := by
+  unfold hdfWriteJson
+  rw [isLeaf_setCache, occupied_setCache, ensureParent_setCache]
+  split
+  · rfl
+  · split <;> rfl
+
+theorem hdfPut_setCache (a : Art) (c : List (Key × Node)) (p : Key) (n : Option Node) :
+    hdfPut { a with cache := c } p n = ({ (hdfPut a p n).1 with cache := c }, (hdfPut a p n).2) := by
+  unfold hdfPut
+  rw [isLeaf_setCache]
+  split
+  · rfl
+  · have : rmTree { a with cache := c } p = { rmTree a p with cache := c } := rfl
+    rw [this, ensureParent_setCache]
+    cases n <;> rfl
+
+theorem hdfWrite_setCache (a : Art) (c : List (Key × Node)) (k : Key) (d : Data) :
+    hdfWrite { a with cache := c } k d = ({ (hdfWrite a k d).1 with cache := c }, (hdfWrite a k d).2) := by
+  obtain ⟨kind, id⟩ := d
+  unfold hdfWrite
+  split
+  · rfl
+  · cases kind with
+    | json =>
+      simp only [hdfWriteJson_setCache]
+      cases hdfWriteJson a k (.blob id) <;> rfl
+    | keyList ks =>
+      simp only [hdfWriteJson_setCache]
+      cases hdfWriteJson a k (.keysNode ks) <;> rfl
+    | unserJson => rfl
+    | zeroRow => rfl
+    | table => exact hdfPut_setCache a c k _
+    | badFrame => exact hdfPut_setCache a c k _
+
+theorem hdfRemove_setCache (a : Art) (c : List (Key × Node)) (p : Key) :
+    hdfRemove { a with cache := c } p = (hdfRemove a p).map (fun x => { x with cache := c }) := by
+  unfold hdfRemove
+  rw [occupied_setCache]
+  split <;> rfl
+
+theorem keysRewrite_setCache (a : Art) (c : List (Key × Node)) :
+    keysRewrite { a with cache := c } = ({ (keysRewrite a).1 with cache := c }, (keysRewrite a).2) := by
+  unfold keysRewrite
+  rw [hdfRemove_setCache]
+  cases hdfRemove a ksKey with
+  | none => rfl
+  | some a1 =>
+    simp only [Option.map_some]
+    have := hdfWriteJson_setCache a1 c ksKey (.keysNode a.keys)
+    rw [this]
+    cases hdfWriteJson a1 ksKey (.keysNode a.keys) <;> rfl
+
+
 end Viv.Artifact
